@@ -1,10 +1,10 @@
 package main
 
 import (
-	"os"
 	"bytes"
 	"fmt"
 	"io"
+	"os"
 	"strings"
 
 	"github.com/ClickHouse/ch-go/proto"
